@@ -79,7 +79,9 @@ pub fn parse_ctrl_log_info_payload(
 
         if payload.len() >= 2 {
             let count_app_ids: u16 = parse_payload_int(is_big_endian, payload, 0).unwrap();
-            let mut apids = Vec::with_capacity(count_app_ids as usize);
+            // the count can be corrupt. Each app id needs at least 6 bytes:
+            let mut apids =
+                Vec::with_capacity(std::cmp::min(count_app_ids as usize, payload.len() / 6));
             let mut offset = 2usize;
             let mut avail = payload.len() - 2;
 
